@@ -7,6 +7,7 @@ import (
 	"fmt"
 	"io"
 	"math"
+	"runtime/debug"
 	"strings"
 	"testing/iotest"
 
@@ -29,6 +30,7 @@ type kase struct {
 	Enc     int          `json:"enc"`     // FASTQ
 	Feed    int          `json:"feed"`    // 0 whole, 1 one byte at a time, 2 data+EOF together
 	LongLen int          `json:"longlen,omitempty"`
+	Widths  []int        `json:"widths,omitempty"` // FASTA: the writer's exported Width is set to Widths[i] before record i is written
 }
 
 func feed(data []byte, mode int) io.Reader {
@@ -74,7 +76,23 @@ func check(c *enum.Ctx, k kase) {
 	enc := alphabet.Encoding(k.Enc)
 	withQ := k.Format == "fastq" && k.Q
 	if c.Guard(k.Format+"/write-panic", k, func() {
-		if k.Format == "fasta" {
+		if k.Format == "fasta" && len(k.Widths) > 0 {
+			var buf bytes.Buffer
+			w := fasta.NewWriter(&buf, k.Widths[0])
+			for i, r := range k.Recs {
+				w.Width = k.Widths[i%len(k.Widths)]
+				before := buf.Len()
+				n, werr := w.Write(seqgen.Make(r, k.Q, k.Protein, alphabet.Sanger))
+				if werr == nil && n != buf.Len()-before {
+					werr = fmt.Errorf("BYTECOUNT record %d: Write returned %d, %d bytes were emitted", i, n, buf.Len()-before)
+				}
+				if werr != nil {
+					err = werr
+					break
+				}
+			}
+			text = buf.Bytes()
+		} else if k.Format == "fasta" {
 			text, err = seqgen.WriteFasta(k.Recs, k.Q, k.Protein, k.Width)
 		} else {
 			text, err = seqgen.WriteFastq(k.Recs, k.Q, enc, k.QID)
@@ -92,7 +110,7 @@ func check(c *enum.Ctx, k kase) {
 	}
 	// byte counts when the sink fails: for every number of bytes the sink accepts before failing, each
 	// Write reports what was emitted during that call
-	if len(text) <= 300 {
+	if len(text) <= 300 && k.Width < 1<<20 { // (not at the extreme widths: a writer may size a buffer by the width, once per writer)
 		for limit := 0; limit < len(text); limit++ {
 			msg, _ := featgen.CountsUnderFailure(func(sk *featgen.Sink) func(int) (int, error) {
 				if k.Format == "fasta" {
@@ -143,7 +161,7 @@ func clip(b []byte) string {
 }
 
 func run(c *enum.Ctx) {
-	c.Rule("record set R = 36 name x description combinations (names \"\", a, >, @x, +, a>b@+; descriptions \"\", d, 'two words', >, @, +x) x letters from every string of length 0..3 (thorough 4) over {a,c,N,-} (protein {a,w,*}); all lists of <=2 (thorough 3, reduced) records; boundary lengths 4095..12289 with position dependent fill; FASTA widths {1,2,3,7,60,4096,4097,10000, 2^31-1, 2^31, 2^32+1, MaxInt64-1, MaxInt64} x Seq/QSeq x DNA/protein; FASTQ x QID on/off x 5 Phred-offset encodings x quality vectors over {lowest, '@'-producing, '+'-producing, highest}; reader fed whole, one byte at a time, and with data+EOF together; every file is read alternately with a companion reader of another configuration (FASTA: a 5000-letter line and width-3 wrapping; FASTQ: a Solexa-encoded file), which must read its own records; non-trivial = lists with >= 1 record")
+	c.Rule("record set R = 36 name x description combinations (names \"\", a, >, @x, +, a>b@+; descriptions \"\", d, 'two words', >, @, +x) x letters from every string of length 0..3 (thorough 4) over {a,c,N,-} (protein {a,w,*}); all lists of <=2 (thorough 3, reduced) records; boundary lengths 4095..12289 with position dependent fill; FASTA widths {1,2,3,7,60,4096,4097,10000} and, on a few records one at a time, {2^31-1, 2^31, 2^32+1, MaxInt64-1, MaxInt64}; one writer whose exported Width changes from record to record x Seq/QSeq x DNA/protein; FASTQ x QID on/off x 5 Phred-offset encodings x quality vectors over {lowest, '@'-producing, '+'-producing, highest}; reader fed whole, one byte at a time, and with data+EOF together; every file is read alternately with a companion reader of another configuration (FASTA: a 5000-letter line and width-3 wrapping; FASTQ: a Solexa-encoded file), which must read its own records; non-trivial = lists with >= 1 record")
 	c.Assume("names without whitespace, single-line trimmed descriptions, sequences at offset 0", "Illumina1_5 scores start at 2 (its printable range)", "FASTA does not carry qualities; FASTQ with a plain template carries letters only")
 	maxL := 3
 	if !c.Quick {
@@ -159,7 +177,7 @@ func run(c *enum.Ctx) {
 	enum.Strings("acN-", 0, maxL, func(s []byte) { dnaWords = append(dnaWords, string(s)) })
 	enum.Strings("aw*", 0, maxL, func(s []byte) { protWords = append(protWords, string(s)) })
 	// ("any positive line width": the largest int and its neighbourhood, 2^31 and 2^32 and theirs)
-	widths := []int{1, 2, 3, 7, 60, 4096, 4097, 10000, 1<<31 - 1, 1 << 31, 1<<32 + 1, math.MaxInt64 - 1, math.MaxInt64}
+	widths := []int{1, 2, 3, 7, 60, 4096, 4097, 10000}
 	var cases []kase
 	// FASTA
 	for _, prot := range []bool{false, true} {
@@ -276,7 +294,26 @@ func run(c *enum.Ctx) {
 			}
 		}
 	}
+	// one writer whose Width is changed from record to record
+	for _, ws := range [][]int{{3, 60}, {60, 3}, {1, 2, 3}, {7, 2, 7}, {4096, 5}} {
+		for _, q := range []bool{false, true} {
+			recs := []seqgen.Rec{{Name: "a", Desc: "d", Letters: "acN-acNacN-acN-a"}, {Name: "b", Letters: "cNa-acN-acNN"}, {Name: "c", Desc: "x y", Letters: "Nac-acNcca-acN-acN"}}
+			cases = append(cases, kase{Format: "fasta", Recs: recs, Q: q, Width: ws[0], Widths: ws})
+		}
+	}
 	c.Set("cases", len(cases))
+	// "any positive line width": the largest int and its neighbourhood, 2^31 and 2^32 and theirs - a few
+	// records each, one at a time (a writer may size a buffer by the width)
+	for _, w := range []int{1<<31 - 1, 1 << 31, 1<<32 + 1, math.MaxInt64 - 1, math.MaxInt64} {
+		for _, recs := range [][]seqgen.Rec{{{Name: "e"}}, {{Name: "a", Desc: "d", Letters: "a"}}, {{Name: "a", Letters: "acN-acN"}, {Name: "b", Desc: "two words", Letters: "cc"}}} {
+			k := kase{Format: "fasta", Recs: recs, Width: w}
+			c.Doing(0, k)
+			c.Eval()
+			check(c, k)
+			c.Nontrivial(enum.J(k))
+			debug.FreeOSMemory()
+		}
+	}
 	enum.Parallel(16, func(sh int) {
 		nt := enum.NontrivialSet{}
 		for i := sh; i < len(cases); i += 16 {
